@@ -2,7 +2,7 @@
     and followed by Print Assumptions.  C16: numeric text is recognised per the CellML grammar and
     never crashes. *)
 From Coq Require Import String Ascii List Bool ZArith.
-From LC Require Import NumDefs NumSpec NumProofs NumMoreProofs.
+From LC Require Import NumDefs NumSpec NumProofs NumMoreProofs NumRound6Proofs.
 Local Open Scope string_scope.
 
 (** The integer recogniser accepts exactly the integer grammar. *)
@@ -298,3 +298,22 @@ Example C16_hyps_nonvacuous :
   (is_basic_real "-1.5" = true /\ count_char "e" "-1.5" = 0 /\ count_char "E" "-1.5" = 0).
 Proof. exact NumMoreProofs.hyps_nonvacuous. Qed.
 Print Assumptions C16_hyps_nonvacuous.
+
+(** ---- Round 6 (NumRound6Proofs.v): concatenation laws of the integer recognisers, over ALL strings. ---- *)
+
+(** isNonNegativeCellMLInteger over a concatenation, as booleans (also for every rejected split). *)
+Theorem C16_nonneg_app_split : forall a b,
+  is_nonneg_int (a ++ b) = all_digits a && all_digits b && negb (str_is_empty a && str_is_empty b).
+Proof. exact NumRound6Proofs.nonneg_app_split. Qed.
+Print Assumptions C16_nonneg_app_split.
+
+(** Converse of C16_nonneg_sub_int: an accepted integer is non-negative exactly when it has no leading sign. *)
+Theorem C16_int_nonneg_iff_nosign : forall c r, is_int (String c r) = true ->
+  is_nonneg_int (String c r) = negb (is_sign c).
+Proof. exact NumRound6Proofs.int_nonneg_iff_nosign. Qed.
+Print Assumptions C16_int_nonneg_iff_nosign.
+
+(** After an accepted integer, exactly digit strings may follow. *)
+Theorem C16_int_app_digits : forall s d, is_int s = true -> is_int (s ++ d) = all_digits d.
+Proof. exact NumRound6Proofs.int_app_digits. Qed.
+Print Assumptions C16_int_app_digits.
